@@ -91,9 +91,11 @@ def rule_r1(rep):
                 m = re.match(r"if (left|right) is (\S+) assign (\S+)$", txt)
                 if m:
                     ident = f"{'L' if m.group(1) == 'left' else 'R'}{m.group(2)}={m.group(3)}"
-                    rep.ob("R1-identity", key, ident in s["identities"], CP, line,
-                           f"`{op}: {txt}` is not valid for every value of the unknown operand (definedness included); "
-                           f"allowed identities for {op}: {sorted(s['identities'])}")
+                    cex = identity_counterexample(op, m.group(1), m.group(2), m.group(3))
+                    rep.ob("R1-identity", key, cex is None, CP, line,
+                           f"`{op}: {txt}` is not valid for every value of the unknown operand (definedness included): {cex}")
+                    if cex is None and ident not in s["identities"]:
+                        rep.note(f"R1-identity: `{key}` is not in spec/asm_identities.txt but agrees with the VM semantics of {op} on the witness set")
                     continue
                 rep.ob("R1-table-line-understood", key, False, CP, line, f"unrecognised transform_operator! line `{txt}`")
     rep.floor("R1-table-op-known", 16)
@@ -105,6 +107,69 @@ def rule_r1(rep):
                        {n["op"] for n in tab.walk(h["body"]) if n.get("k") == "Binary"}
             rep.ob("R1-helper-operator", s["evaluator"], s["operator"] in body_ops and len(body_ops) == 1, CP, h["l"],
                    f"helper {s['evaluator']} must compute `{s['operator']}`; its body uses {sorted(body_ops)}")
+
+
+M64 = (1 << 64) - 1
+
+
+def _ck(v):
+    return v if 0 <= v <= M64 else None  # the VM reverts on overflow/underflow (no wrapping flag is ever set by the compiler)
+
+
+def _ilog(a, b):
+    if a == 0 or b <= 1:
+        return None
+    r = 0
+    while a >= b:
+        a //= b
+        r += 1
+    return r
+
+
+def _root(a, n):
+    if n == 0:
+        return None
+    lo, hi = 0, a
+    while lo < hi:
+        mid = (lo + hi + 1) // 2
+        if mid ** n <= a:
+            lo = mid
+        else:
+            hi = mid - 1
+    return lo
+
+
+# FuelVM ALU semantics of the opcodes the propagator rewrites; None = the VM reverts (fuel-vm interpreter/alu.rs)
+VM_SEM = {
+    "ADD": lambda a, b: _ck(a + b), "SUB": lambda a, b: _ck(a - b), "MUL": lambda a, b: _ck(a * b),
+    "DIV": lambda a, b: None if b == 0 else a // b, "MOD": lambda a, b: None if b == 0 else a % b,
+    "EXP": lambda a, b: _ck(a ** b) if (a <= 1 or b <= 64) else None,
+    "MLOG": _ilog, "MROO": _root,
+    "AND": lambda a, b: a & b, "OR": lambda a, b: a | b, "XOR": lambda a, b: a ^ b,
+    "SLL": lambda a, b: (a << b) & M64 if b < 64 else 0, "SRL": lambda a, b: a >> b if b < 64 else 0,
+    "EQ": lambda a, b: int(a == b), "GT": lambda a, b: int(a > b), "LT": lambda a, b: int(a < b),
+}
+
+
+def identity_counterexample(op, side, const, result):
+    """`if <side> is <const> assign <result>` must agree with the VM for every value of the other operand, reverts included.
+    Evaluated over a witness set of boundary values of the unknown operand (0, 1, small, around the constant, around 64,
+    powers of two, u64::MAX); returns a description of the first disagreement."""
+    sem = VM_SEM.get(op)
+    if sem is None or not re.fullmatch(r"\d+", const):
+        return f"no VM semantics recorded for {op} / non-literal constant {const}"
+    c = int(const)
+    ws = sorted({v for v in [0, 1, 2, 3, 5, 7, 31, 32, 33, 63, 64, 65, 127, 255, 256, 1 << 16, 1 << 32, (1 << 32) + 1, 1 << 62, 1 << 63, (1 << 63) + 1, M64 - 1, M64,
+                             c - 1, c, c + 1, 2 * c, 2 * c + 1] if 0 <= v <= M64})
+    for y in ws:
+        a, b = (c, y) if side == "left" else (y, c)
+        want = sem(a, b)
+        got = a if result == "left" else b if result == "right" else int(result) if re.fullmatch(r"\d+", result) else "?"
+        if got == "?":
+            return f"unrecognised result `{result}`"
+        if want != got:
+            return (f"{op}({a}, {b}) " + ("reverts in the VM" if want is None else f"is {want}") + f", the rewrite yields {got}")
+    return None
 
 
 def run(rep):
